@@ -179,6 +179,10 @@ def nodepath_cases(run, n):
                     used.add(nm)
                     break
             names[i] = nm
+        # browse names repeat along a path (Parameters/Parameters); only the root's name has to be unique for the look-up
+        for i in ids[2:]:
+            if rng.random() < 0.35:
+                names[i] = names[rng.choice(ids[1:ids.index(i)])]
         reftypes = ["HasComponent", "Organizes", "HasProperty"]
         tsel = rng.sample(reftypes[:2], rng.randint(1, 2))
         tree = [[ids[rng.randrange(i)], ids[i], rng.choice(tsel)] for i in range(1, k)]
